@@ -18,8 +18,8 @@ package scipipe
 
 // Common string functions of the standard library (assumed contracts; the spec functions without an SMT interpretation
 // have a Go interpretation in govc/concrete.go for replays and for the concrete validation of axioms).
-//@ ghost func trimLeftSet(s string, cutset string) string
-//@ ghost func trimRightSet(s string, cutset string) string
+//@ ghost func trimLeftSet(s string, cutset string) string interp `(ite (and (> (str.len s) 0) (str.contains cutset (str.at s 0))) (trimLeftSet (str.substr s 1 (- (str.len s) 1)) cutset) s)`
+//@ ghost func trimRightSet(s string, cutset string) string interp `(ite (and (> (str.len s) 0) (str.contains cutset (str.at s (- (str.len s) 1)))) (trimRightSet (str.substr s 0 (- (str.len s) 1)) cutset) s)`
 //@ extern strings.HasPrefix(s, prefix) (res)
 //@   deterministic by-contract pure library function
 //@   ensures def: res == hasPrefix(s, prefix)
